@@ -37,6 +37,23 @@ def listT (ty : Ty) : Ty := .extType StdValDefs.list [.type ty]
 /-- `StaticArray(ty)` -/
 def staticArrayT (ty : Ty) : Ty := .extType StdValDefs.staticArray [.type ty]
 
+/-- Does a type argument fit a type parameter?  (`TypeArg` vs `TypeParam` in the specification:
+    a bounded natural below the bound, a type whose bound is within the parameter's bound.)
+    Only the parameter kinds the std type definitions use are covered; everything else is `false`. -/
+def argFits : TypeArg → TypeParam → Bool
+  | .boundedNat n, .boundedNat none => decide (0 ≤ n)
+  | .boundedNat n, .boundedNat (some ub) => decide (0 ≤ n) && decide (n < ub)
+  | .type t, .type b =>
+    match Ty.bound t with
+    | .ok bt => bt == .copyable || b == .any
+    | .error _ => false
+  | _, _ => false
+
+def argsFit : List TypeArg → List TypeParam → Bool
+  | [], [] => true
+  | a :: as, p :: ps => argFits a p && argsFit as ps
+  | _, _ => false
+
 /-! ### std constants -/
 
 inductive Err where
